@@ -232,97 +232,4 @@ mod verif_kani {
         }
     }
     #[kani::proof] #[kani::unwind(22)] fn large_try_shrink_v4_4() { large_try_shrink::<Ipv4AddrBytes, 4>() }
-
-    // ---------------- C20: per-client tallies follow the stored peer ids ----------------
-    // `Sender::try_send` is replaced by a recorder (the channel is unbounded: the real call cannot fail).
-    static mut LOG_N: usize = 0;
-    static mut LOG: [(bool, [u8; 20]); 4] = [(false, [0; 20]); 4];   // (is_added, peer id)
-    fn try_send_rec<T>(_s: &Sender<T>, msg: T) -> Result<(), crossbeam_channel::TrySendError<T>> {
-        assert!(std::mem::size_of::<T>() == std::mem::size_of::<StatisticsMessage>(), "harness: recorder used for another channel type");
-        let m: &StatisticsMessage = unsafe { &*(&msg as *const T as *const StatisticsMessage) };
-        let rec = match m {
-            StatisticsMessage::PeerAdded(id) => Some((true, id.0)),
-            StatisticsMessage::PeerRemoved(id) => Some((false, id.0)),
-            _ => None,
-        };
-        if let Some(r) = rec {
-            unsafe {
-                assert!(LOG_N < 4, "harness: log too small");
-                LOG[LOG_N] = r;
-                LOG_N += 1;
-            }
-        }
-        std::mem::forget(msg);
-        Ok(())
-    }
-    fn tally(id: &[u8; 20]) -> i32 {
-        let mut t = 0; let mut i = 0;
-        unsafe { while i < LOG_N { if LOG[i].1 == *id { t += if LOG[i].0 { 1 } else { -1 }; } i += 1; } }
-        t
-    }
-    fn stored_with_id<I: Ip>(m: &PeerMap<I>, id: &[u8; 20]) -> i32 {
-        let mut c = 0;
-        match m {
-            PeerMap::Small(s) => { let mut i = 0; while i < s.0.len() { if s.0[i].1.peer_id.0 == *id { c += 1; } i += 1; } }
-            PeerMap::Large(l) => { let mut i = 0; while i < l.peers.model_len() { if l.peers.model_entry(i).1.peer_id.0 == *id { c += 1; } i += 1; } }
-        }
-        c
-    }
-    fn any_request() -> AnnounceRequest {
-        let ev = match kani::any::<u8>() % 4 { 0 => AnnounceEvent::None, 1 => AnnounceEvent::Completed, 2 => AnnounceEvent::Started, _ => AnnounceEvent::Stopped };
-        AnnounceRequest {
-            connection_id: ConnectionId::new(0), action_placeholder: AnnounceActionPlaceholder::Announce, transaction_id: TransactionId::new(kani::any()),
-            info_hash: InfoHash([0; 20]), peer_id: PeerId(kani::any()), bytes_downloaded: NumberOfBytes::new(0), bytes_left: NumberOfBytes::new(kani::any()),
-            bytes_uploaded: NumberOfBytes::new(0), event: ev, ip_address: Ipv4AddrBytes([0; 4]), key: PeerKey::new(0),
-            peers_wanted: NumberOfPeers::new(1), port: Port(kani::any::<u16>().into()),
-        }
-    }
-
-    /// one announce on every inline-map state with per-client statistics on: for every peer id, the change in the number of stored
-    /// peers carrying it equals PeerAdded minus PeerRemoved messages for it
-    #[kani::proof] #[kani::unwind(22)]
-    #[kani::stub(crossbeam_channel::Sender::try_send, try_send_rec)]
-    fn tally_announce_small_v4() {
-        // inline map with at most ONE stored entry (enough for every case of the tally contract: no entry / same key same id /
-        // same key other id / other key)
-        let mut sm = SmallPeerMap(ArrayVec::new());
-        if kani::any() { sm.0.push((any_key::<Ipv4AddrBytes>(), any_peer())); }
-        let mut pm = PeerMap::Small(sm);
-        let mut config = Config::default();
-        config.statistics.peer_clients = true;
-        // never used (try_send is replaced by the recorder) and never dropped: an all-zero value (flavor tag 0 + null counter pointer) is enough
-        let sender: Sender<StatisticsMessage> = unsafe { std::mem::zeroed() };
-        let mut rng = <SmallRng as rand::SeedableRng>::seed_from_u64(1);
-        let request = any_request();
-        let ip = Ipv4AddrBytes(kani::any());
-        // ids to watch: the request's, and the one stored under the announcer's key (if any)
-        let key = ResponsePeer { ip_address: ip, port: request.port };
-        let mut stored_id: Option<[u8; 20]> = None;
-        if let PeerMap::Small(s) = &pm { let mut i = 0; while i < s.0.len() { if s.0[i].0 == key { stored_id = Some(s.0[i].1.peer_id.0); } i += 1; } }
-        let before_req = stored_with_id(&pm, &request.peer_id.0);
-        let before_old = match stored_id { Some(id) => stored_with_id(&pm, &id), None => 0 };
-        let _ = pm.announce(&config, &sender, &mut rng, &request, ip, ValidUntil::new_raw(SecondsSinceServerStart::new_raw(kani::any())));
-        let after_req = stored_with_id(&pm, &request.peer_id.0);
-        let stopped = matches!(request.event, AnnounceEvent::Stopped);
-        match stored_id {
-            None => {
-                assert!(after_req - before_req == tally(&request.peer_id.0), "[C20.tally.announce.new_key] a new peer is tallied once (nothing on a stop of an unknown peer)");
-            }
-            Some(old) if old == request.peer_id.0 => {
-                assert!(after_req - before_req == tally(&request.peer_id.0), "[C20.tally.announce.same_id] re-announce / stop with the stored id");
-            }
-            Some(old) => {
-                let after_old = stored_with_id(&pm, &old);
-                if stopped {
-                    assert!(after_old - before_old == tally(&old) && after_req - before_req == tally(&request.peer_id.0),
-                        "[C20.tally.announce.stop_other_id] a stop removes the STORED peer id from the tallies");
-                } else {
-                    assert!(after_old - before_old == tally(&old) && after_req - before_req == tally(&request.peer_id.0),
-                        "[C20.tally.announce.id_change] a peer that changes id: old id removed, new id added");
-                }
-            }
-        }
-        kani::cover!(stored_id.is_some());
-        std::mem::forget(sender);
-    }
 }
